@@ -16,6 +16,14 @@ Theorem C19_http_error : forall preset sc msg status, 0 < status ->
   log (ensure (rw (ctx_http_error msg status (rsp_init preset sc)))) = [WH status; W (fst (accept sc (msg ++ [newline])))].
 Proof. exact http_error_response. Qed.
 
+(* pkg/render Text / Plain / TextBytes / HTML / HTMLBytes / Blob used on their own: a Content-Type that is already set wins,
+   otherwise the renderer's own is set; the body is exactly the data (nothing for empty data) *)
+Theorem C19_render_blob : forall preset sc ct data,
+  let r := render_blob ct data (rsp_init preset sc) in
+  ctype r = Some (match preset with Some c => c | None => ct end) /\
+  log (ensure (rw r)) = WH 200 :: (match data with [] => [] | _ => [W (fst (accept sc data))] end).
+Proof. exact render_blob_response. Qed.
+
 (* the renderers of pkg/render never override a Content-Type the caller has already set *)
 Theorem C19_no_override : forall v r old, ctype r = Some old -> ctype (write_ct v r) = Some old.
 Proof. exact write_ct_keeps. Qed.
@@ -67,3 +75,4 @@ Print Assumptions C19_accept_first.
 Print Assumptions C19_accept_none.
 Print Assumptions C19_accept_empty.
 Print Assumptions C19_legacy_F10_refuted.
+Print Assumptions C19_render_blob.
